@@ -23,6 +23,9 @@ CHECKS = {
     'C05': ('model_checking', 'sequential histories (<= 3/4 operations chosen by a symbolic selector) through the real announceUpdate funnel, read/write '
             'wrappers and dispatcher fan-out under a virtual clock with symbolic instants and a symbolic omit window; oracle: folding the received '
             'messages reproduces the cache after every step, and the cache reflects the outcome of every operation', '5/C05'),
+    'C06': ('model_checking', 'describe output of a catalogue node with symbolic datatype limits: structure/stability/JSON kinds, and for every described '
+            'writable parameter the datatype rebuilt from the description accepts a symbolic payload iff the node accepts the change; emitted values '
+            'are importable; flags, interface classes and features compared with an independent derivation; undescribed names refused', '5/C06'),
 }
 NOT_YET = 'check not built yet in this round (planned per DESIGN.md section 5); not claimed until its harness runs clean'
 NOT_APPLICABLE = {}
